@@ -72,6 +72,7 @@ fn constraint_sets(r: &mut Lcg) -> Vec<([f64; 6], [f64; 6])> {
     v.push(([-2.9, -1.9, -2.3, -3.1, -2.1, -3.1], [2.9, 1.9, 2.3, 3.1, 2.1, 3.1]));                  // wide
     v.push(([2.0, -1.0, 1.5, 2.5, -0.5, 3.0], [-2.0, 1.0, -1.5, -2.5, 0.5, -3.0]));                  // several wrapping
     v.push(([0.0, 0.0, 0.0, 0.0, 0.0, 0.0], [0.0, 1.5, 0.0, 3.0, 0.0, 0.0]));                        // from == to on four joints
+    v.push(([0.35, -1.9, 1.0, 1.75, -2.0, 2.0], [-0.35, 1.9, -1.0, 4.5, 2.0, 4.2]));                 // centres near +-pi (wrap-around and ranges reaching beyond pi)
     for _ in 0..4 { let mut f = [0.0; 6]; let mut t = [0.0; 6]; for j in 0..6 { f[j] = r.range(-3.1, 3.1); t[j] = if r.next() < 0.2 { f[j] } else { r.range(-3.1, 3.1) }; } v.push((f, t)); }
     v
 }
@@ -128,6 +129,13 @@ pub fn ik_search(c: &Case, prop: &str) {
                             }
                         }
                     }
+                    // the CONSTRAINT_CENTERED sentinel: representatives nearest to the constraint centres, ordered by distance to them
+                    if prop == "C04" && !dof5 {
+                        let cen = cons.centers;
+                        let got = k.inverse_continuing(&pp, &CONSTRAINT_CENTERED);
+                        for s in &got { for j in 0..6 { if (s[j] - cen[j]).abs() > PI + 1e-9 { bad.push(format!("inverse_continuing(CONSTRAINT_CENTERED): joint {} of {:?} is not the representative nearest to the centre {}", j, s, cen[j])); } } }
+                        for pair in got.windows(2) { if cost(&pair[0], &cen, &cen, w) > cost(&pair[1], &cen, &cen, w) + 1e-9 { bad.push("inverse_continuing(CONSTRAINT_CENTERED): answers not ordered by distance to the constraint centres".into()); } }
+                    }
                     // previous realises the pose and is not singular => first
                     if prop == "C04" && !wrist_singular && !dof5 {
                         let s = plain.inverse_continuing(&pp, &qq);
@@ -141,6 +149,21 @@ pub fn ik_search(c: &Case, prop: &str) {
     }
     finish(bad, tried);
 }
-pub fn c04(c: &Case) { ik_search(c, "C04"); }
+pub fn c04(c: &Case) { if c.s("leaf") == "true" { leaf(c) } else { ik_search(c, "C04") } }
+/// normalize_near through the cfg-guarded hook: out must be now + 2*pi*m and, for now in [-pi,pi] and prev in [-2pi,2pi], within pi of prev
+fn leaf(c: &Case) {
+    let (now, prev) = (c.f("now"), c.f("prev"));
+    let out = rs_opw_kinematics::kinematics_impl::verif_hooks::normalize_near(now, prev);
+    let m = (out - now) / (2.0 * PI);
+    let mut bad = Vec::new();
+    let flip = now.abs() == PI && out == -now;
+    if (m - m.round()).abs() > 1e-9 && !flip { bad.push(format!("normalize_near({}, {}) = {} is not now + 2*pi*m (m = {})", now, prev, out, m)); }
+    if m.round().abs() > 3.0 { bad.push(format!("normalize_near moved by {} turns", m)); }
+    if now.abs() <= PI && prev.abs() <= 2.0 * PI && (out - prev).abs() > PI + 1e-9 { bad.push(format!("normalize_near({}, {}) = {} is farther than pi from prev", now, prev, out)); }
+    if now == prev && out != now { bad.push("now == prev changed".into()); }
+    if !out.is_finite() { bad.push("non-finite".into()); }
+    println!("out={}", out);
+    finish(bad, 1);
+}
 pub fn c06(c: &Case) { ik_search(c, "C06"); }
 pub fn c08(c: &Case) { ik_search(c, "C08"); }
